@@ -185,13 +185,30 @@ OnStdout(r, ev) ==
      /\ UNCHANGED run
 
 (***************************************************************************)
+\* C15: a run on arbitrary bytes has no syntax tree; only its frame is judged: it must end, by itself, with
+\* exit status 0 (or 1: the file could not be read as text), having printed a result or a diagnostic
+IsRaw(r) == r # << >> /\ "raw" \in DOMAIN r
+OnRawStdout(r, ev) ==
+  /\ Check(~ev.timeout, "hang", <<"the emulator did not terminate on", r.note, r.head>>)
+  /\ Check(ev.timeout \/ ev.status \in {0, 1}, "abort", <<"exit status", ev.status, ev.stderr, "on", r.note, r.head>>)
+  /\ Check(ev.timeout \/ ev.status \notin {0, 1} \/ ev.bytes # << >>, "abort", <<"no output at all on", r.note>>)
+  /\ UNCHANGED run
+\* a string given directly to one of the library's parsers: a result or an error value, never a panic / abort / hang
+OnParse(ev) ==
+  /\ Check(ev.outcome \in {"ok", "err"}, "parse", <<ev.parser, ev.outcome, ev.input>>)
+  /\ UNCHANGED run
+
 TraceInit == run = << >> /\ l = 1 /\ TLCSet(1, << >>)
 
 TraceNext ==
   /\ l <= Len(Rec)
   /\ l' = l + 1
   /\ LET ev == Rec[l] IN
-     CASE ev.ev = "program" -> run' = NewRun(ev)
+     CASE ev.ev = "program" /\ "raw" \in DOMAIN ev -> run' = [raw |-> TRUE, note |-> ev.note, head |-> ev.source_head]
+       [] ev.ev = "parse" -> OnParse(ev)
+       [] ev.ev = "stdout" /\ IsRaw(run) -> OnRawStdout(run, ev)
+       [] IsRaw(run) -> UNCHANGED run
+       [] ev.ev = "program" -> run' = NewRun(ev)
        [] ev.ev = "asm"     -> OnAsm(run, ev)
        [] ev.ev = "loaded"  -> OnLoaded(run, ev)
        [] ev.ev = "prompt"  -> OnPrompt(run, ev)
